@@ -41,6 +41,8 @@ def textbook(n, p, conf, method, z):
 
 
 def close(a, b, rel=1e-9):
+    if not all(isinstance(x, (int, float)) and not isinstance(x, bool) for x in (a, b)):
+        return False  # complex / None / str: never "close" to a textbook number
     return abs(a - b) <= rel * max(1.0, abs(a), abs(b))
 
 
@@ -60,6 +62,9 @@ def _work(units):
                         z = stats.probit((1 - conf) / 2)
                     except Exception as e:  # noqa
                         viol.append({"kind": "ci:raises", "case": case, "observed": f"{type(e).__name__}: {e}"})
+                        continue
+                    if not all(isinstance(x, (int, float)) and not isinstance(x, bool) for x in (lo, hi, z)):
+                        viol.append({"kind": "ci:order", "case": case, "observed": repr((lo, hi, z)), "why": "the bounds and the z-score are real numbers"})
                         continue
                     outs.add((lo, hi))
                     if not (lo <= hi):
@@ -107,6 +112,8 @@ def _work(units):
                     case = {"n": n, "p": pp, "confidence": conf, "method": method, "spelling": {"args": list(args), "kwargs": kw}, "order": u[1]}
                     try:
                         lo, hi = stats.confidence_interval(*args, **kw)
+                        if isinstance(lo, complex) or isinstance(hi, complex):
+                            raise TypeError(f"complex bounds {(lo, hi)!r}")
                     except Exception as e:  # noqa
                         viol.append({"kind": "ci:spelling", "case": case, "observed": f"{type(e).__name__}: {e}", "why": "a well-formed call raised"})
                         continue
@@ -118,12 +125,19 @@ def _work(units):
             for a in V + [0.025, 0.975]:
                 for args, kw in (((a,), {}), ((), {"alpha": a})):
                     n_eval += 1
-                    z = stats.probit(*args, **kw)
-                    if not close(z, C * abs(math.log(a / (1 - a)))):
+                    try:
+                        z = stats.probit(*args, **kw)
+                    except Exception as e:  # noqa
+                        z = f"{type(e).__name__}: {e}"
+                    if not isinstance(z, float) or not close(z, C * abs(math.log(a / (1 - a)))):
                         viol.append({"kind": "ci:spelling", "case": {"alpha": a, "spelling": {"args": list(args), "kwargs": kw}, "order": u[1]}, "observed": repr(z), "why": "probit of its own argument"})
             n_eval += 1
-            if stats.probit() != 0.0:
-                viol.append({"kind": "ci:spelling", "case": {"alpha": "default", "order": u[1]}, "observed": repr(stats.probit()), "why": "probit() is probit(0.5) = 0"})
+            try:
+                z0 = stats.probit()
+            except Exception as e:  # noqa
+                z0 = f"{type(e).__name__}: {e}"
+            if z0 != 0.0:
+                viol.append({"kind": "ci:spelling", "case": {"alpha": "default", "order": u[1]}, "observed": repr(z0), "why": "probit() is probit(0.5) = 0"})
         elif u[0] == "threads":
             # two threads ask for intervals at different confidence levels (every interleaving with <= bound preemptions at the
             # line points of the stats module, real threads under the controlled scheduler of mc/xsched.py); each answer, and
@@ -210,7 +224,11 @@ def _work(units):
                     viol.append({"kind": "z:symmetry", "case": {"alpha": repr(a)}, "observed": repr((z, z2)), "why": "probit(alpha) must equal probit(1-alpha)"})
             for a in (math.nextafter(0.5, 1), math.nextafter(0.5, 0), 0.5):
                 n_eval += 1
-                z = stats.probit(a)
+                try:
+                    z = stats.probit(a)
+                except Exception as ex:  # noqa
+                    viol.append({"kind": "z:raises", "case": {"alpha": repr(a)}, "observed": f"{type(ex).__name__}: {ex}"})
+                    continue
                 if not (0 <= z < 1e-15):
                     viol.append({"kind": "z:conservative", "case": {"alpha": repr(a)}, "observed": repr(z), "why": "z next to alpha = 1/2 must be ~0 and non-negative"})
         elif u[0] == "ztail":
@@ -219,7 +237,11 @@ def _work(units):
                 for m in (1.0, 2.5, 5.0):
                     a = m * 10.0**-e
                     n_eval += 1
-                    z = stats.probit(a)
+                    try:
+                        z = stats.probit(a)
+                    except Exception as ex:  # noqa
+                        viol.append({"kind": "z:raises", "case": {"alpha": repr(a)}, "observed": f"{type(ex).__name__}: {ex}"})
+                        continue
                     zt = abs(nd.inv_cdf(a))
                     outs.add(z)
                     if not (z >= zt * (1 - 1e-12)):
@@ -247,8 +269,11 @@ def run(res, tier):
         res.outcomes.add(("flags", flags))
     res.set("distinct_nontrivial", len(res.outcomes))
     res.set("bounds", {"n_values": len(NS), "p_values": len(PS), "confidences": len(CONFS), "alpha_grid_bits": bits})
-    res.sample({"n": 10, "p": 0.5, "confidence": 0.95, "method": "agresti-coull", "interval": stats.confidence_interval(10, 0.5, 0.95)})
-    res.sample({"alpha": 0.025, "z": stats.probit(0.025), "true_quantile": abs(NormalDist().inv_cdf(0.025))})
+    try:
+        res.sample({"n": 10, "p": 0.5, "confidence": 0.95, "method": "agresti-coull", "interval": stats.confidence_interval(10, 0.5, 0.95)})
+        res.sample({"alpha": 0.025, "z": stats.probit(0.025), "true_quantile": abs(NormalDist().inv_cdf(0.025))})
+    except Exception:  # noqa  (a broken helper has been reported above; the sample is only illustration)
+        pass
     res.assumptions += ["statistics.NormalDist.inv_cdf is accurate to 1e-12 relative",
                         "near alpha=1/2 log(alpha/(1-alpha)) is ill-conditioned: 'never smaller' is granted 4 eps sqrt(pi/8) absolute slack"]  # fmt: skip
 
